@@ -310,6 +310,12 @@ func (e *EvalCtx) ident(name string) Val {
 	case "alloc0":
 		return S{e.f.s.alloc0, intT}
 	}
+	// package-level function used as a value (e.g. a lexer state)
+	if sp := e.f.s.P.Pkgs[e.pkg]; sp != nil {
+		if fn := sp.Func(name); fn != nil {
+			return FnV{Fn: fn}
+		}
+	}
 	// package-level constant
 	for _, pk := range []string{e.pkg, "ast"} {
 		if sp := e.f.s.P.Pkgs[pk]; sp != nil {
@@ -464,6 +470,8 @@ func (e *EvalCtx) toS(v Val) S {
 	switch x := v.(type) {
 	case S:
 		return x
+	case FnV:
+		return e.f.asS(x, x.Fn.Signature)
 	case Ptr:
 		return e.f.asS(x, types.NewPointer(x.Elem))
 	}
@@ -764,6 +772,32 @@ func (e *EvalCtx) call(n *XNode) Val {
 	case "isinf":
 		need(1)
 		return S{app("f_isinf", e.evalS(args[0]).T), boolT}
+	case "sent", "closed", "lastsent":
+		need(1)
+		ch := e.evalS(args[0])
+		if _, ok := ch.Ty.Underlying().(*types.Chan); !ok {
+			e.fail("%s expects a channel", name)
+		}
+		cntK, closedK, lastK, elem := e.f.chanKeys(ch.Ty)
+		switch name {
+		case "sent":
+			return S{app("select", e.heap(cntK, arrSort("Int", "Int")), ch.T), intT}
+		case "closed":
+			return S{app("select", e.heap(closedK, arrSort("Int", "Bool")), ch.T), boolT}
+		}
+		return e.loadVia(e.heap, Ptr{Ref: ch.T, Key: lastK, Elem: elem})
+	case "containsrune":
+		need(2)
+		if args[0].Op != "str" {
+			e.fail("containsrune: first argument must be a string literal")
+		}
+		lit, _ := strconv.Unquote(args[0].Val)
+		r := e.evalS(args[1])
+		var ds []string
+		for i := 0; i < len(lit); i++ {
+			ds = append(ds, eq(r.T, num(int64(lit[i]))))
+		}
+		return S{or(ds...), boolT}
 	case "hasprefix":
 		need(2)
 		st := e.evalS(args[0])
